@@ -4,9 +4,10 @@ import YatimlModel.Props.C07EndToEnd
 # C05 for simple objects, closed: what the representers write for an object loads back as that object
 
 The closed-form round trip of `Props/C05Plain` extended to user objects of *simple* classes: plain
-classes without hooks (`_yatiml_recognize`, `_yatiml_savorize`, `_yatiml_sweeten`), without
-`_yatiml_extra`, without registered bases or registered subclasses, not abstract — whose constructor
-parameters are plain data or again such objects, nested to any depth.  For these the description `RT`
+classes without hooks (`_yatiml_recognize`, `_yatiml_savorize`, `_yatiml_sweeten`), without registered
+bases or registered subclasses, not abstract, with or without `_yatiml_extra` (extra attributes holding
+plain data) — whose constructor parameters are plain data, floats, paths, enum members, string-likes,
+`Optional` positions or again such objects, nested to any depth.  For these the description `RT`
 (with its per-node uniqueness of recognition) is *derived* from the model of the representers, so
 
     represent v = node   and   v has type T   ⟹   load(node, T) = v
@@ -24,7 +25,6 @@ structure SimpleClass (env : Env) (d : ClassDef) : Prop where
   sav : d.savorize = none
   noBases : d.bases.filterMap (fun b => env.find b) = []
   concrete : d.abstract = false
-  noExtra : d.takesExtra = false
   noSub : env.directSubclasses d.name = []
   nodup : (d.params.map (·.name)).Nodup
   args : ∀ prm ∈ d.params, d.argNames.contains prm.name = true ∧ prm.name ≠ "_yatiml_extra" ∧ prm.name ≠ "self"
@@ -37,6 +37,16 @@ structure SimpleLeafClass (env : Env) (d : ClassDef) : Prop where
   noBases : d.bases.filterMap (fun b => env.find b) = []
   concrete : d.abstract = false
   noSub : env.directSubclasses d.name = []
+
+/-- untyped plain data: what an extra attribute may hold here -/
+inductive PlainAny : PyVal → Prop
+  | str (s : String) : PlainAny (.scalar (.str s))
+  | int (i : Int) : PlainAny (.scalar (.int i))
+  | bool (b : Bool) : PlainAny (.scalar (.bool b))
+  | null : PlainAny (.scalar .none)
+  | list (xs : PyVals) : (∀ x ∈ xs.toList, PlainAny x) → PlainAny (.list xs)
+  | dict (kvs : PyKVs) : (∀ e ∈ kvs.toList, ∃ s, e.1 = .scalar (.str s)) → (∀ e ∈ kvs.toList, PlainAny e.2) →
+      KeysOk kvs.toList → PlainAny (.dict kvs)
 
 /-- `Optional[T]`, as `typing` normalises it: `Union[T, None]` -/
 def optTy (T : Ty) : Ty := .union (.cons T (.cons .null .nil))
@@ -68,11 +78,19 @@ inductive HasTyE (env : Env) : Ty → PyVal → Prop
   | map (k : MapKind) (V : Ty) (kvs : PyKVs) :
       (∀ e ∈ kvs.toList, ∃ s, e.1 = .scalar (.str s)) → (∀ e ∈ kvs.toList, HasTyE env V e.2) →
       KeysOk kvs.toList → HasTyE env (.map k .str V) (.dict kvs)
-  | obj (d : ClassDef) (kw : PyKVs) : SimpleClass env d →
+  | obj (d : ClassDef) (kw : PyKVs) : SimpleClass env d → d.takesExtra = false →
       kw.toList.map (·.1) = d.params.map (fun p => strKey p.name) →
       (∀ e ∈ kw.toList, ∀ prm ∈ d.params, e.1 = strKey prm.name → HasTyE env prm.ty e.2) →
       d.initRaises (scalarArgs kw.toList) = false →
       HasTyE env (.cls d.name) (.obj d.name kw)
+  | objX (d : ClassDef) (mainKw extraKw : List (PyVal × PyVal)) : SimpleClass env d → d.takesExtra = true →
+      mainKw.map (·.1) = d.params.map (fun p => strKey p.name) →
+      (∀ e ∈ mainKw, ∀ prm ∈ d.params, e.1 = strKey prm.name → HasTyE env prm.ty e.2) →
+      (∀ e ∈ extraKw, ∃ s, e.1 = strKey s ∧ d.argNames.contains s = false ∧ s ≠ "self") →
+      (∀ e ∈ extraKw, PlainAny e.2) → KeysOk extraKw →
+      d.initRaises (scalarArgs (mainKw ++ [(strKey "_yatiml_extra", .dict (PyKVs.ofList extraKw))])) = false →
+      HasTyE env (.cls d.name)
+        (.obj d.name (PyKVs.ofList (mainKw ++ [(strKey "_yatiml_extra", .dict (PyKVs.ofList extraKw))])))
   | float (r : String) (i : Option Int) : env.ext.yamlFloat (floatText r) = some (r, i) →
       HasTyE env .float (.scalar (.float r i))
   | path (s : String) : env.find "Path" = none → HasTyE env .path (.path s)
@@ -168,7 +186,8 @@ theorem hasTyE_typeMatches_core (env : Env) (n : Nat)
     simp only [need] at hn
     exact typeMatchesKVs_of env V kvs hk (fun e hem =>
       ih V e.2 (by have := needK_mem kvs e hem; omega) (hv e hem))
-  | obj d kw _ _ _ _ => simp [typeMatches, isInstanceOf]
+  | obj d kw _ _ _ _ _ => simp [typeMatches, isInstanceOf]
+  | objX d mainKw extraKw _ _ _ _ _ _ _ _ => simp [typeMatches, isInstanceOf]
   | float r i _ => simp [typeMatches]
   | path t _ => simp [typeMatches]
   | enum d members name _ _ _ => simp [typeMatches, isInstanceOf]
@@ -194,8 +213,11 @@ theorem hasTyE_typeMatches (env : Env) : ∀ (n : Nat) (T : Ty) (v : PyVal), nee
       exact hasTyE_typeMatches_core env n ih _ _ hn (HasTyE.seq k item xs hx) (by intro T' e; simp [optTy] at e)
     | map k V kvs hk hv hko =>
       exact hasTyE_typeMatches_core env n ih _ _ hn (HasTyE.map k V kvs hk hv hko) (by intro T' e; simp [optTy] at e)
-    | obj d kw hS h1 h2 h3 =>
-      exact hasTyE_typeMatches_core env n ih _ _ hn (HasTyE.obj d kw hS h1 h2 h3) (by intro T' e; simp [optTy] at e)
+    | obj d kw hS h0 h1 h2 h3 =>
+      exact hasTyE_typeMatches_core env n ih _ _ hn (HasTyE.obj d kw hS h0 h1 h2 h3) (by intro T' e; simp [optTy] at e)
+    | objX d mainKw extraKw hS h0 h1 h2 h3 h4 h5 h6 =>
+      exact hasTyE_typeMatches_core env n ih _ _ hn (HasTyE.objX d mainKw extraKw hS h0 h1 h2 h3 h4 h5 h6)
+        (by intro T' e; simp [optTy] at e)
     | float r i h1 =>
       exact hasTyE_typeMatches_core env n ih _ _ hn (HasTyE.float r i h1) (by intro T' e; simp [optTy] at e)
     | path t h1 =>
@@ -240,6 +262,128 @@ theorem recognize_simple_obj (env : Env) (d : ClassDef) (S : SimpleClass env d) 
     BEq.rfl, S.concrete, Bool.false_eq_true, if_false, recUserClass, S.recog, S.kind,
     Pairs.toList_ofList, hattrs, recOk, finishClasses, List.length_singleton, Node.tag, tMap_yaml]
   simp
+
+theorem tNull_ne_str : (tNull == tStr) = false := by decide
+theorem tNull_ne_int : (tNull == tInt) = false := by decide
+theorem tNull_ne_bool : (tNull == tBool) = false := by decide
+theorem tNull_ne_float : (tNull == tFloat) = false := by decide
+theorem tFloat_ne_null : (tFloat == tNull) = false := by decide
+theorem tStr_ne_null : (tStr == tNull) = false := by decide
+theorem tInt_ne_null : (tInt == tNull) = false := by decide
+theorem tBool_ne_null : (tBool == tNull) = false := by decide
+
+/-! ### extra attributes hold plain data -/
+
+theorem stripTagsL_toList (tbl : List Entry) : ∀ (ns : Nodes), (stripTagsL tbl ns).toList = ns.toList.map (stripTags tbl)
+  | .nil => rfl
+  | .cons x xs => by simp [stripTagsL, Nodes.toList, stripTagsL_toList tbl xs]
+
+theorem stripTagsP_toList (tbl : List Entry) : ∀ (ps : Pairs),
+    (stripTagsP tbl ps).toList = ps.toList.map (fun p => (stripTags tbl p.1, stripTags tbl p.2))
+  | .nil => rfl
+  | .cons k v r => by simp [stripTagsP, Pairs.toList, stripTagsP_toList tbl r]
+
+theorem byTag_core (env : Env) (t : String) (h : hasPrefix "!" t = false) : env.byTag t = none := by
+  simp [Env.byTag, h]
+
+theorem all2_map_right' {α β γ : Type} {r : α → β → Prop} {s : α → γ → Prop} (g : β → γ) :
+    ∀ {as : List α} {bs : List β}, All2 r as bs → (∀ a ∈ as, ∀ b, r a b → s a (g b)) → All2 s as (bs.map g)
+  | _, _, .nil, _ => All2.nil
+  | _, _, .cons (a := a) (b := b) hab rest, h =>
+    All2.cons (h a (by simp) b hab) (all2_map_right' g rest (fun a' ha' b' hr => h a' (by simp [ha']) b' hr))
+
+/-- **Plain data survives tag stripping and construction.** -/
+theorem construct_plain (env : Env) (denv : DumpEnv) (tbl : List Entry) :
+    ∀ (g : Nat) (v : PyVal) (o : RepOut), represent denv g v = .ok o → PlainAny v →
+      ∀ f, need v ≤ f → ∃ cs, construct env tbl f (stripTags tbl o.node) = .ok ⟨v, cs⟩
+  | 0, _, _, h, _, _, _ => by simp [represent] at h
+  | g + 1, v, o, h, hp, f, hf => by
+    obtain ⟨f, rfl⟩ : ∃ f', f = f' + 1 := ⟨f - 1, by have := need_pos v; omega⟩
+    cases hp with
+    | str s =>
+      simp only [represent, representScalar] at h; cases h
+      exact ⟨[], by simp [stripTags, tStr_core, construct, Node.tag, byTag_core env tStr (by decide), constructScalarCore]; decide⟩
+    | int i =>
+      simp only [represent, representScalar] at h; cases h
+      refine ⟨[], ?_⟩
+      have h1 : hasPrefix corePrefix tInt = true := by decide
+      have h2 : (tInt == "!Path") = false := by decide
+      have h3 : (tInt == tStr) = false := by decide
+      have hci : constructInt (Int.repr i) = some i := constructInt_int i
+      simp [stripTags, h1, construct, Node.tag, byTag_core env tInt (by decide), h2, constructScalarCore, h3, hci]
+    | bool b =>
+      simp only [represent, representScalar] at h; cases h
+      refine ⟨[], ?_⟩
+      have h1 : hasPrefix corePrefix tBool = true := by decide
+      have h2 : (tBool == "!Path") = false := by decide
+      have h3 : (tBool == tStr) = false := by decide
+      have h4 : (tBool == tInt) = false := by decide
+      have h5 : (tBool == tFloat) = false := by decide
+      have hb : constructBool (if b = true then "true" else "false") = some b := by cases b <;> decide
+      simp [stripTags, h1, construct, Node.tag, byTag_core env tBool (by decide), h2, constructScalarCore, h3, h4, h5, hb]
+    | null =>
+      simp only [represent, representScalar] at h; cases h
+      refine ⟨[], ?_⟩
+      have h1 : hasPrefix corePrefix tNull = true := by decide
+      have h2 : (tNull == "!Path") = false := by decide
+      have h5 : (tNull == tFloat) = false := by decide
+      simp [stripTags, h1, construct, Node.tag, byTag_core env tNull (by decide), h2, constructScalarCore,
+        tNull_ne_str, tNull_ne_int, tNull_ne_bool, h5]
+    | list xs hx =>
+      simp only [represent] at h
+      split at h
+      · cases h
+      · rename_i ns tr hitems
+        cases h
+        simp only [need] at hf
+        have ha := repItems_all2 (represent denv g) xs.toList ns tr hitems
+        have hall : All2 (fun x y => ∃ cs, construct env tbl f y = .ok ⟨x, cs⟩) xs.toList (ns.map (stripTags tbl)) :=
+          all2_map_right' (stripTags tbl) ha (fun x hxm n ⟨o, ho, hn⟩ => hn ▸
+            construct_plain env denv tbl g x o ho (hx x hxm) f (by have := needL_mem xs x hxm; omega))
+        obtain ⟨cs', hc⟩ := consItems_all2 (construct env tbl f) xs.toList _ [] hall
+        refine ⟨cs', ?_⟩
+        have h2 : (tSeq == "!Path") = false := by decide
+        simp [stripTags, construct, Node.tag, byTag_core env tSeq (by decide), h2, stripTagsL_toList, hc]
+    | dict kvs hk hv hko =>
+      simp only [represent] at h
+      split at h
+      · cases h
+      · rename_i ps tr hpairs
+        cases h
+        simp only [need] at hf
+        have ha := repPairs_all2 (represent denv g) kvs.toList ps tr hpairs
+        have hall : All2 (fun e q => (∃ ck, construct env tbl f q.1 = .ok ⟨e.1, ck⟩) ∧ NotMergeKey q.1 ∧
+            (∃ cv, construct env tbl f q.2 = .ok ⟨e.2, cv⟩)) kvs.toList
+            (ps.map (fun p => (stripTags tbl p.1, stripTags tbl p.2))) :=
+          all2_map_right' _ ha (fun e hem p ⟨⟨ko, hko', hkn⟩, ⟨vo, hvo, hvn⟩⟩ => by
+            obtain ⟨s, hs⟩ := hk e hem
+            have hnk := needK_mem kvs e hem
+            have hfp : 3 ≤ f := by have := need_pos e.2; omega
+            have hkey := construct_plain env denv tbl g e.1 ko hko' (hs ▸ PlainAny.str s) f
+              (by rw [hs]; simp only [need]; omega)
+            have hval := construct_plain env denv tbl g e.2 vo hvo (hv e hem) f (by omega)
+            refine ⟨hkn ▸ hkey, ?_, hvn ▸ hval⟩
+            -- the key node is a `!!str` scalar
+            rw [hs] at hko'
+            cases g with
+            | zero => simp [represent] at hko'
+            | succ g' =>
+              simp only [represent, representScalar] at hko'
+              cases hko'
+              rw [← hkn]
+              simp only [stripTags, tStr_core, if_true]
+              exact tStr_not_merge)
+        have hflat : flattenPairs (f + 1) (ps.map (fun p => (stripTags tbl p.1, stripTags tbl p.2)))
+            = some (ps.map (fun p => (stripTags tbl p.1, stripTags tbl p.2))) := by
+          apply flattenPairs_plain_keys
+          intro q hq
+          obtain ⟨e, _, _, hnm, _⟩ := all2_mem_right hall q hq
+          exact hnm
+        obtain ⟨cs', hc⟩ := consPairs_all2 (construct env tbl f) kvs.toList _ [] [] hall hko.1
+          (by simpa using hko.2)
+        refine ⟨cs', ?_⟩
+        have h2 : (tMap == "!Path") = false := by decide
+        simp [stripTags, construct, Node.tag, byTag_core env tMap (by decide), h2, stripTagsP_toList, hflat, hc]
 
 theorem tStr_yaml : hasPrefix "tag:yaml.org,2002" tStr = true := by decide
 
@@ -298,6 +442,33 @@ theorem keysDistinct_congr (ps qs : List (Node × Node)) (h : ps.map (·.1) = qs
   unfold KeysDistinct at *
   rw [h]; exact hq
 
+theorem attributesOf_with_extra : ∀ (main extra : List (PyVal × PyVal)),
+    (∀ e ∈ main, (e.1 == PyVal.scalar (.str "_yatiml_extra")) = false) →
+    attributesOf (main ++ [(strKey "_yatiml_extra", .dict (PyKVs.ofList extra))]) = main ++ extra
+  | [], extra, _ => by simp [attributesOf, strKey]
+  | e :: main, extra, h => by
+    rw [List.cons_append, attributesOf_cons e _ (h e (by simp)),
+      attributesOf_with_extra main extra (fun x hx => h x (by simp [hx]))]
+    rfl
+
+theorem all2_append_left {α β : Type} {r : α → β → Prop} : ∀ {as1 as2 : List α} {bs : List β},
+    All2 r (as1 ++ as2) bs → ∃ bs1 bs2, bs = bs1 ++ bs2 ∧ All2 r as1 bs1 ∧ All2 r as2 bs2
+  | [], _, bs, h => ⟨[], bs, rfl, All2.nil, h⟩
+  | a :: as1, as2, _, h => by
+    cases h with
+    | cons hab rest =>
+      obtain ⟨bs1, bs2, e, h1, h2⟩ := all2_append_left rest
+      exact ⟨_ :: bs1, bs2, by rw [e]; rfl, All2.cons hab h1, h2⟩
+
+def nameOfKey (k : PyVal) : String :=
+  match k with
+  | .scalar (.str s) => s
+  | _ => ""
+
+theorem needK_ofList_mem (l : List (PyVal × PyVal)) (e : PyVal × PyVal) (he : e ∈ l) :
+    need e.2 ≤ needK (PyKVs.ofList l) :=
+  needK_mem (PyKVs.ofList l) e (by rw [PyKVs.toList_ofList]; exact he)
+
 /-! ### what is shown of a represented node: which type it is recognised as, and its shape -/
 
 /-- the type recognition settles on: the declared type itself, or - for `Optional[T]` - `None`'s or `T` -/
@@ -337,6 +508,159 @@ theorem desc_core (env : Env) (denv : DumpEnv) (tbl : List Entry) (hns : C07.NoS
   cases ht with
   | optNone T _ => exact absurd rfl (hno T)
   | optSome T v _ _ => exact absurd rfl (hno T)
+  | objX d mainKw extraKw S hte hkeys hvals hext hplain hkok hinit =>
+    simp only [represent] at h
+    split at h
+    · cases h
+    · rename_i dd hdd
+      have hmainkeys : ∀ e ∈ mainKw, (e.1 == PyVal.scalar (.str "_yatiml_extra")) = false := by
+        intro e he
+        have : e.1 ∈ mainKw.map (·.1) := List.mem_map.mpr ⟨e, he, rfl⟩
+        rw [hkeys] at this
+        obtain ⟨prm, hprm, hpe⟩ := List.mem_map.mp this
+        rw [← hpe]
+        have := (S.args prm hprm).2.1
+        simp [strKey, this]
+      rw [PyKVs.toList_ofList, attributesOf_with_extra mainKw extraKw hmainkeys] at h
+      split at h
+      · cases h
+      · rename_i ps tr hpairs
+        split at h
+        · cases h
+        · rename_i n tr' hsw
+          cases h
+          have := C07.sweeten_id denv hns _ _ dd (C07.find_mem denv d.name dd hdd) _ hsw
+          cases this
+          simp only [need] at hf
+          -- fuel: every argument, and every extra attribute, fits two levels down
+          have hmainNeed : ∀ e ∈ mainKw, need e.2 + 4 ≤ f + 2 := by
+            intro e he
+            have := needK_ofList_mem (mainKw ++ [(strKey "_yatiml_extra", PyVal.dict (PyKVs.ofList extraKw))]) e
+              (by simp [he])
+            omega
+          have hextraNeed : ∀ e ∈ extraKw, need e.2 + 7 ≤ f + 2 := by
+            intro e he
+            have h1 := needK_ofList_mem (mainKw ++ [(strKey "_yatiml_extra", PyVal.dict (PyKVs.ofList extraKw))])
+              (strKey "_yatiml_extra", PyVal.dict (PyKVs.ofList extraKw)) (by simp)
+            have h2 := needK_ofList_mem extraKw e he
+            simp only [need] at h1
+            omega
+          have hfpos : 2 ≤ f := by
+            have := needK_pos (PyKVs.ofList (mainKw ++ [(strKey "_yatiml_extra", PyVal.dict (PyKVs.ofList extraKw))]))
+            omega
+          obtain ⟨b, rfl⟩ : ∃ b, f = b + 1 := ⟨f - 1, by omega⟩
+          have ha := repPairs_all2 (represent denv g) (mainKw ++ extraKw) ps tr hpairs
+          obtain ⟨ps1, ps2, hps, ha1, ha2⟩ := all2_append_left ha
+          subst hps
+          have A : All2 (fun e p => ∃ prm ∈ d.params, e.1 = strKey prm.name ∧ p.1 = .scalar tStr prm.name gen ∧
+              RT env tbl (b + 1) prm.ty e.2 p.2 ∧ RT env tbl b prm.ty e.2 p.2 ∧ need e.2 ≤ b) mainKw ps1 :=
+            all2_imp_mem ha1 (fun e hem p ⟨⟨ko, hko, hkn⟩, ⟨vo, hvo, hvn⟩⟩ => by
+              have : e.1 ∈ mainKw.map (·.1) := List.mem_map.mpr ⟨e, hem, rfl⟩
+              rw [hkeys] at this
+              obtain ⟨prm, hprm, hpe⟩ := List.mem_map.mp this
+              have hty := hvals e hem prm hprm hpe.symm
+              have hnk := hmainNeed e hem
+              refine ⟨prm, hprm, hpe.symm, ?_, ?_, ?_, by omega⟩
+              · rw [← hpe] at hko
+                cases g with
+                | zero => simp [represent] at hko
+                | succ g' =>
+                  simp only [strKey, represent, representScalar] at hko
+                  cases hko; exact hkn.symm
+              · exact hvn ▸ simple_described prm.ty e.2 vo hvo hty (b + 1) (by omega)
+              · exact hvn ▸ simple_described prm.ty e.2 vo hvo hty b (by omega))
+          have E : All2 (fun e p => ∃ name cs, e.1 = strKey name ∧ p.1 = .scalar tStr name gen ∧
+              d.argNames.contains name = false ∧ name ≠ "self" ∧
+              construct env tbl (b + 1) (stripTags tbl p.2) = .ok ⟨e.2, cs⟩) extraKw ps2 :=
+            all2_imp_mem ha2 (fun e hem p ⟨⟨ko, hko, hkn⟩, ⟨vo, hvo, hvn⟩⟩ => by
+              obtain ⟨nm, hnm, hna, hns'⟩ := hext e hem
+              have hnk := hextraNeed e hem
+              obtain ⟨cs, hc⟩ := construct_plain env denv tbl g e.2 vo hvo (hplain e hem) (b + 1) (by omega)
+              refine ⟨nm, cs, hnm, ?_, hna, hns', hvn ▸ hc⟩
+              rw [hnm] at hko
+              cases g with
+              | zero => simp [represent] at hko
+              | succ g' =>
+                simp only [strKey, represent, representScalar] at hko
+                cases hko; exact hkn.symm)
+          -- the keys of the mapping: the parameter names, then the names of the extra attributes
+          have hk1 : ps1.map (·.1) = (d.params.map (·.name)).map (fun nm => Node.scalar tStr nm gen) := by
+            have e1 : mainKw.map (fun e => keyNodeOf e.1) = ps1.map (·.1) :=
+              all2_map_eq (fun e => keyNodeOf e.1) (·.1) A (fun e p ⟨prm, _, h1, h2, _⟩ => by
+                simp only [h1, h2, strKey, keyNodeOf])
+            rw [← e1]
+            have : mainKw.map (fun e => keyNodeOf e.1) = (mainKw.map (·.1)).map keyNodeOf := by
+              simp [List.map_map]
+            rw [this, hkeys]
+            simp [List.map_map, strKey, keyNodeOf, Function.comp]
+          have hk2 : ps2.map (·.1) = (extraKw.map (fun e => nameOfKey e.1)).map (fun nm => Node.scalar tStr nm gen) := by
+            have e1 : extraKw.map (fun e => Node.scalar tStr (nameOfKey e.1) gen) = ps2.map (·.1) :=
+              all2_map_eq (fun e => Node.scalar tStr (nameOfKey e.1) gen) (·.1) E
+                (fun e p ⟨nm, cs, h1, h2, _⟩ => by
+                  rw [h1, h2]
+                  simp only [strKey, nameOfKey])
+            rw [← e1]; simp [List.map_map, Function.comp]
+          have hnames : ((d.params.map (·.name)) ++ (extraKw.map (fun e => nameOfKey e.1))).Nodup := by
+            apply List.nodup_append.mpr
+            refine ⟨S.nodup, ?_, ?_⟩
+            · -- the extra attributes have different names
+              apply List.pairwise_map.mpr
+              refine List.Pairwise.imp_of_mem ?_ hkok.2
+              intro a c ha hc hac heq
+              obtain ⟨sa, hsa, _⟩ := hext a ha
+              obtain ⟨sc, hsc, _⟩ := hext c hc
+              rw [hsa, hsc, keyEq_str] at hac
+              rw [hsa, hsc] at heq
+              simp only [strKey, nameOfKey] at heq
+              rw [heq] at hac
+              simp at hac
+            · intro x hx y hy hxy
+              obtain ⟨prm, hprm, rfl⟩ := List.mem_map.mp hx
+              obtain ⟨e, he, rfl⟩ := List.mem_map.mp hy
+              obtain ⟨se, hse, hna, _⟩ := hext e he
+              have := (S.args prm hprm).1
+              rw [hxy, hse] at this
+              simp only [strKey, nameOfKey] at this
+              rw [hna] at this; cases this
+          have hdist : KeysDistinct (ps1 ++ ps2) := by
+            apply keysDistinct_congr (ps1 ++ ps2) _ _ (keysDistinct_of_names _ hnames)
+            rw [List.map_append, hk1, hk2]
+            simp [List.map_map, Function.comp_def]
+          have hall : ∀ prm ∈ d.params, ∃ p ∈ ps1 ++ ps2, p.1.keyIs prm.name = true ∧
+              Unique (recognizeReq env b p.2 (.ty prm.ty)) := by
+            intro prm hprm
+            have : strKey prm.name ∈ mainKw.map (·.1) := by
+              rw [hkeys]; exact List.mem_map.mpr ⟨prm, hprm, rfl⟩
+            obtain ⟨e, he, hek⟩ := List.mem_map.mp this
+            obtain ⟨p, hp, prm', hprm', h1, h2, _, h4, _⟩ := All2.mem_left A e he
+            have hnm : prm'.name = prm.name := by
+              rw [h1] at hek; simpa [strKey] using hek
+            have hpp : prm' = prm := eq_of_name d.params S.nodup prm' hprm' prm hprm hnm
+            subst hpp
+            exact ⟨p, List.mem_append_left _ hp, by rw [h2]; simp [keyIs_scalar], rt_unique h4⟩
+          have hrec := recognize_simple_obj env d S b (ps1 ++ ps2) gen hdist hall
+          refine ⟨[okLeaf], hrec, b + 1, rfl, ?_⟩
+          refine RTcore.obj d.name _ (Pairs.ofList (ps1 ++ ps2)) gen d mainKw extraKw ps1 ps2 S.found S.kind ?_
+          exact {
+            sav := by simp [savorize, S.noBases, S.sav]
+            psEq := by rw [Pairs.toList_ofList]
+            kwEq := by simp [hte]
+            noExtra := fun hf' => by rw [hte] at hf'; cases hf'
+            main := by
+              exact all2_imp_mem A (fun e hem p ⟨prm, hprm, h1, h2, h3, _, hn⟩ =>
+                ⟨prm.name, gen, prm, h1, h2, hprm, rfl, h3,
+                  hasTyE_typeMatches env b prm.ty e.2 hn (hvals e hem prm hprm h1)⟩)
+            extra := all2_imp_mem E (fun e _ p ⟨nm, cs, h1, h2, h3, h4, h5⟩ => ⟨nm, gen, cs, h1, h2, h3, h4, h5⟩)
+            distinct := by simpa [KeysDistinct] using hdist
+            required := by
+              intro prm hprm _
+              have : strKey prm.name ∈ mainKw.map (·.1) := by
+                rw [hkeys]; exact List.mem_map.mpr ⟨prm, hprm, rfl⟩
+              obtain ⟨e, he, hek⟩ := List.mem_map.mp this
+              exact ⟨e, he, hek⟩
+            paramsNodup := S.nodup
+            argsParams := S.args
+            init := by simpa using hinit }
   | float r i hfl =>
     simp only [represent, representScalar] at h; cases h
     exact ⟨[okLeaf], by simp [recognize, recognizeReq, recScalar, recOk], f, rfl, RTcore.float r i _ _ hfl⟩
@@ -425,7 +749,7 @@ theorem desc_core (env : Env) (denv : DumpEnv) (tbl : List Entry) (hns : C07.NoS
       simp only [recognize, recognizeReq, recDict, keyTypeOk, Bool.not_true, Bool.false_eq_true, ↓reduceIte,
         Pairs.toList_ofList]
       exact recDictPairs_unique _ _ _ _ ps huniq
-  | obj d kw S hkeys hvals hinit =>
+  | obj d kw S hte hkeys hvals hinit =>
     simp only [represent] at h
     split at h
     · cases h
@@ -503,7 +827,7 @@ theorem desc_core (env : Env) (denv : DumpEnv) (tbl : List Entry) (hns : C07.NoS
           exact {
             sav := by simp [savorize, S.noBases, S.sav]
             psEq := by rw [Pairs.toList_ofList, List.append_nil]
-            kwEq := by simp [S.noExtra]
+            kwEq := by simp [hte]
             noExtra := fun _ => rfl
             main := by
               exact all2_imp_mem A (fun e hem p ⟨prm, hprm, h1, h2, h3, _, hn⟩ =>
@@ -539,15 +863,6 @@ theorem recUnion_opt (rec : Node → Ty → RecRes) (n : Node) (T R : Ty) (l1 l2
     recUnion rec n [T, .null] = .ok ([R], [okLeaf]) := by
   rcases h with ⟨h1, h2⟩ | ⟨h1, h2⟩ <;>
     simp [recUnion, recUnionMembers, h1, h2, unionT, insertT, dropBoolFix_single]
-
-theorem tNull_ne_str : (tNull == tStr) = false := by decide
-theorem tNull_ne_int : (tNull == tInt) = false := by decide
-theorem tNull_ne_bool : (tNull == tBool) = false := by decide
-theorem tNull_ne_float : (tNull == tFloat) = false := by decide
-theorem tFloat_ne_null : (tFloat == tNull) = false := by decide
-theorem tStr_ne_null : (tStr == tNull) = false := by decide
-theorem tInt_ne_null : (tInt == tNull) = false := by decide
-theorem tBool_ne_null : (tBool == tNull) = false := by decide
 
 theorem reject_null (env : Env) (T : Ty) (hnn : NonNullTy env T) (b : Nat) (s : String) (m : Mark) :
     ∃ l, recognizeReq env (b + 2) (.scalar tNull s m) (.ty T) = .ok ([], l) := by
@@ -638,7 +953,8 @@ theorem simple_described (env : Env) (denv : DumpEnv) (tbl : List Entry) (hns : 
     | null => exact plain (by intro T' e; simp [optTy] at e)
     | seq k item xs hx => exact plain (by intro T' e; simp [optTy] at e)
     | map k V kvs hk hv hko => exact plain (by intro T' e; simp [optTy] at e)
-    | obj d kw hS h1 h2 h3 => exact plain (by intro T' e; simp [optTy] at e)
+    | obj d kw hS h0 h1 h2 h3 => exact plain (by intro T' e; simp [optTy] at e)
+    | objX d mainKw extraKw hS h0 h1 h2 h3 h4 h5 h6 => exact plain (by intro T' e; simp [optTy] at e)
     | float r i h1 => exact plain (by intro T' e; simp [optTy] at e)
     | path t h1 => exact plain (by intro T' e; simp [optTy] at e)
     | enum d members name h1 h2 h3 => exact plain (by intro T' e; simp [optTy] at e)
@@ -682,8 +998,9 @@ open YatimlModel
 /-- **Round trip for simple objects (node level), closed form.**  For every class model, resolver table
 and value made of plain data (strings, integers, booleans, `None`, floats whose `repr` CPython's
 `float()` reads back, paths, lists, string-keyed dicts), members of enums and string-likes without hooks,
-objects of *simple* classes (plain, no hooks, no `_yatiml_extra`, no registered bases or subclasses, not
-abstract) and `Optional[...]` positions, nested to any depth: if the dump side has no
+objects of *simple* classes (plain, no hooks, no registered bases or subclasses, not abstract; with or
+without `_yatiml_extra`, whose extra attributes hold plain data) and `Optional[...]` positions, nested to
+any depth: if the dump side has no
 `_yatiml_sweeten` hooks, the node tree the representers build loads back — with enough fuel for the
 depth of the value — as exactly that value: same classes, equal attribute values, same list and mapping
 order.  No precondition about recognition: its uniqueness at every node is derived. -/
@@ -712,11 +1029,11 @@ def extE : Ext := { yamlFloat := fun _ => none, yamlTimestamp := fun _ => none, 
 def envS : Env := { registered := [pointD, lineD], ext := extE }
 
 theorem pointD_simple : SimpleClass envS pointD :=
-  { found := rfl, kind := rfl, recog := rfl, sav := rfl, noBases := rfl, concrete := rfl, noExtra := by decide,
+  { found := rfl, kind := rfl, recog := rfl, sav := rfl, noBases := rfl, concrete := rfl,
     noSub := by decide, nodup := by decide,
     args := by intro prm hp; simp [pointD] at hp; rcases hp with rfl | rfl <;> decide }
 theorem lineD_simple : SimpleClass envS lineD :=
-  { found := rfl, kind := rfl, recog := rfl, sav := rfl, noBases := rfl, concrete := rfl, noExtra := by decide,
+  { found := rfl, kind := rfl, recog := rfl, sav := rfl, noBases := rfl, concrete := rfl,
     noSub := by decide, nodup := by decide,
     args := by intro prm hp; simp [lineD] at hp; rcases hp with rfl | rfl <;> decide }
 
@@ -724,12 +1041,51 @@ def pointV (x : Int) (l : String) : PyVal :=
   .obj "Point" (PyKVs.ofList [(strKey "x", .scalar (.int x)), (strKey "label", .scalar (.str l))])
 
 theorem pointV_typed (x : Int) (l : String) : HasTyE envS (.cls "Point") (pointV x l) := by
-  refine HasTyE.obj pointD _ pointD_simple rfl ?_ rfl
+  refine HasTyE.obj pointD _ pointD_simple (by decide) rfl ?_ rfl
   intro e he prm hp hk
   simp [PyKVs.ofList, PyKVs.toList] at he
   simp [pointD] at hp
   rcases he with rfl | rfl <;> rcases hp with rfl | rfl <;> simp [strKey] at hk <;>
     first | exact HasTyE.int _ | exact HasTyE.str _
+
+-- a class that takes `_yatiml_extra`
+def openD : ClassDef :=
+  { name := "Open", bases := [], ancestors := [], kind := .plain, abstract := false,
+    params := [⟨"a", .int, true, true⟩], argNames := ["a", "_yatiml_extra"],
+    extraTy := none, recognize := none, savorize := none, initRaises := fun _ => false }
+def envX : Env := { registered := [openD], ext := extE }
+theorem openD_simple : SimpleClass envX openD :=
+  { found := rfl, kind := rfl, recog := rfl, sav := rfl, noBases := rfl, concrete := rfl,
+    noSub := by decide, nodup := by decide,
+    args := by intro prm hp; simp [openD] at hp; subst hp; decide }
+
+example : HasTyE envX (.cls "Open")
+    (.obj "Open" (PyKVs.ofList ([(strKey "a", .scalar (.int 1))] ++
+      [(strKey "_yatiml_extra", .dict (PyKVs.ofList [(strKey "zz", .scalar (.str "1e5")),
+        (strKey "n", .list (PyVals.ofList [.scalar (.int 1), .scalar .none]))]))]))) := by
+  refine HasTyE.objX openD _ _ openD_simple (by decide) rfl ?_ ?_ ?_ ?_ rfl
+  · intro e he prm hp hk
+    simp at he; subst he
+    simp [openD] at hp; subst hp
+    exact HasTyE.int 1
+  · intro e he
+    simp at he
+    rcases he with rfl | rfl
+    · exact ⟨"zz", rfl, by decide, by decide⟩
+    · exact ⟨"n", rfl, by decide, by decide⟩
+  · intro e he
+    simp at he
+    rcases he with rfl | rfl
+    · exact PlainAny.str _
+    · refine PlainAny.list _ ?_
+      intro x hx
+      simp [PyVals.ofList, PyVals.toList] at hx
+      rcases hx with rfl | rfl
+      · exact PlainAny.int 1
+      · exact PlainAny.null
+  · constructor
+    · intro e he; simp at he; rcases he with rfl | rfl <;> rfl
+    · simp [strKey, keyEq, numKey]
 
 -- `Optional[Point]` positions: `None` and a `Point`
 example : HasTyE envS (optTy (.cls "Point")) (.scalar .none) := HasTyE.optNone _ (NonNullTy.cls pointD pointD_simple)
@@ -739,7 +1095,7 @@ example : HasTyE envS (optTy (.cls "Point")) (pointV 7 "null") :=
 example : HasTyE envS (.cls "Line")
     (.obj "Line" (PyKVs.ofList [(strKey "start", pointV 1 "1e5"),
       (strKey "via", .list (PyVals.ofList [pointV 2 "true", pointV (-3) "~"]))])) := by
-  refine HasTyE.obj lineD _ lineD_simple rfl ?_ rfl
+  refine HasTyE.obj lineD _ lineD_simple (by decide) rfl ?_ rfl
   intro e he prm hp hk
   simp [PyKVs.ofList, PyKVs.toList] at he
   simp [lineD] at hp
